@@ -45,7 +45,7 @@ class SyncTraitRemove(Contract):
     path = PATH
     qualname = "HasTraits.sync_trait"
     properties = ("C20",)
-    overloads = ("remove",)
+    overloads = ("remove", "add")
     class_paths = (PATH,)
     inline = (("HasTraits", "_get_sync_trait_info"),)
     assumptions = ("A-PY", "A-BUILTIN:dict", "_on_trait_change(handler, name, remove=True) detaches that handler (C16-level contract, assumed)")
@@ -71,6 +71,25 @@ class SyncTraitRemove(Contract):
         cx.contracts = dict(cx.contracts)
         cx.contracts[("HasTraits", "_is_list_trait")] = IsList()
         cx.contracts[("HasTraits", "_on_trait_change")] = OnTraitChange()
+        if ov == "add":
+            cur = z3.Function("current_value", z3.StringSort(), Val)
+            wr = z3.Function("weakref_to", Val, Val)
+            cx.weakref_hook = lambda I2, args, st, k: k(VElem(wr(as_val(I2.cx, args[0], st))), st)      # the callback is kept, not run here
+
+            def dyn_getattr(I2, args, st, k):
+                if isinstance(args[0], VRef) and isinstance(args[1], VStr) and args[1].t is not None:
+                    return k(VElem(cur(args[1].t)), st.gset("read_name", args[1].t))
+                return None
+            cx.dyn_getattr_hook = dyn_getattr
+
+            def dyn_setattr(I2, args, st, k):
+                obj, nm, v = args
+                if isinstance(obj, VElem) and isinstance(nm, VStr) and nm.t is not None:
+                    src = st.ghost.get("read_name")
+                    ok = src is not None and isinstance(v, VElem) and v.t.eq(cur(src))
+                    return k(NONE, log(st, ("push", obj.t, nm.t, src if ok else z3.StringVal("<not the current value>"))))
+                return None
+            cx.dyn_setattr_hook = dyn_setattr
 
     def setup(self, cx, I, ov):
         st = St()
@@ -89,13 +108,62 @@ class SyncTraitRemove(Contract):
         st = st.put(self_ref.oid, HObj("obj", None, "HasTraits", {"__sync_trait__": info_ref}))
         mutual = z3.Bool("mutual")
         args = [self_ref, VStr(name), VElem(partner)]
-        kwargs = dict(alias=VStr(alias), mutual=VBool(mutual), remove=VBool(True))
+        kwargs = dict(alias=VStr(alias), mutual=VBool(mutual), remove=VBool(ov == "remove"))
+        self._partner, self._alias, self._name = partner, alias, name
         key = cx.box_tuple([cx.box_int(z3.Function("id_of", Val, z3.IntSort())(partner)), cx.box_str(alias)])
         return st.gset("trace", ()), args, kwargs, dict(D=D, INFO=INFO, key=key, dic_ref=dic_ref, info_ref=info_ref, ntok=ntok,
                                                         has_entry=has_entry, name=name, mutual=mutual, witness=dict(
                                                             name_has_partners_entry=has_entry, link_present=D[key] != Opt.none))
 
+    def post_add(self, cx, I, info, kind, payload, st):
+        """registration: 'while a link exists a change on either side is propagated': the link is recorded, the change handlers
+        are installed exactly when the FIRST partner of the attribute is linked, the partner takes this object's current
+        value exactly when the link is new, linking twice changes nothing, mutual linking is forwarded once"""
+        if kind == "raise":
+            return [("exc-free", z3.BoolVal(False), dict(exception="%s %r" % (payload.cname or payload.sym, payload.origin)))]
+        D0, key = info["D"], info["key"]
+        tr = st.ghost.get("trace", ())
+        linked_before = z3.And(info["has_entry"], D0[key] != Opt.none)
+        k2 = z3.Const("k!sync", Val)
+        had_partner = z3.And(info["has_entry"], z3.Exists([k2], D0[k2] != Opt.none))
+        installs = [r for r in tr if r[0] == "on_trait_change" and r[1] == "_sync_trait_modified" and not r[3].get("remove")]
+        installs_items = [r for r in tr if r[0] == "on_trait_change" and r[1] == "_sync_trait_items_modified" and not r[3].get("remove")]
+        removes = [r for r in tr if r[0] == "on_trait_change" and r[3].get("remove")]
+        pushes = [r for r in tr if r[0] == "push"]
+        is_list = z3.And(self.self_is_list, self.partner_is_list)
+        INFO1 = st.heap[info["info_ref"].oid].payload
+        out = [("post:value-handler-installed-iff-first-partner", z3.BoolVal(bool(installs)) == z3.Not(had_partner)),
+               ("post:items-handler-installed-iff-first-partner-of-a-list-trait", z3.BoolVal(bool(installs_items)) == z3.And(z3.Not(had_partner), is_list)),
+               ("post:handlers-installed-at-most-once-and-none-removed", z3.BoolVal(len(installs) <= 1 and len(installs_items) <= 1 and not removes)),
+               ("post:partner-takes-the-current-value-iff-the-link-is-new", z3.BoolVal(len(pushes) == 1) == z3.Not(linked_before)),
+               ("post:an-entry-for-the-attribute-exists", INFO1[info["ntok"]] != Opt.none)]
+        for r in pushes:
+            out.append(("post:the-push-writes-the-partner's-alias-with-this-attribute's-value", z3.And(r[1] == self._partner, r[2] == self._alias, r[3] == self._name)))
+        for r in installs_items:
+            nm = r[2]
+            out.append(("post:items-handler-listens-to-name_items", nm.t == z3.Concat(info["name"], z3.StringVal("_items"))
+                        if isinstance(nm, VStr) and nm.t is not None else z3.BoolVal(False)))
+        # the link itself
+        new_dicts = [oid for oid, h in st.heap.items() if h.kind == "dict" and oid not in (info["dic_ref"].oid, info["info_ref"].oid)
+                     and h.payload is not None]
+        D_old = st.heap[info["dic_ref"].oid].payload
+        out.append(("post:link-recorded-in-the-existing-entry", z3.Implies(info["has_entry"], z3.And(
+            INFO1[info["ntok"]] == Opt.some(cx.ref_val(info["dic_ref"])), D_old[key] != Opt.none))))
+        out.append(("post:other-links-untouched", z3.Implies(info["has_entry"], z3.ForAll([k2], z3.Implies(k2 != key, D_old[k2] == D0[k2])))))
+        if new_dicts:
+            nd = new_dicts[-1]
+            out.append(("post:link-recorded-in-a-new-entry", z3.Implies(z3.Not(info["has_entry"]), z3.And(
+                INFO1[info["ntok"]] == Opt.some(cx.ref_val(VRef(nd))), st.heap[nd].payload[key] != Opt.none,
+                z3.ForAll([k2], z3.Implies(k2 != key, st.heap[nd].payload[k2] == Opt.none))))))
+        else:
+            out.append(("post:link-recorded-in-a-new-entry", info["has_entry"]))
+        mutuals = [r for r in tr if r[0] == "partner.sync_trait"]
+        out.append(("post:mutual-link-forwarded-once-iff-mutual", z3.BoolVal(len(mutuals) == 1) == info["mutual"]))
+        return out
+
     def post(self, cx, I, ov, info, kind, payload, st):
+        if ov == "add":
+            return self.post_add(cx, I, info, kind, payload, st)
         if kind == "raise":
             return [("exc-free", z3.BoolVal(False), dict(exception="%s %r" % (payload.cname or payload.sym, payload.origin)))]
         D0, key = info["D"], info["key"]
